@@ -4,6 +4,8 @@ package main
 // constructors instead of being looked up by their internal names.
 
 import (
+	"sort"
+	"strings"
 	"go/types"
 
 	"golang.org/x/tools/go/ssa"
@@ -47,10 +49,9 @@ func optRoles(prog *Program) *optRolesT {
 			continue
 		}
 		switch {
-		case sig.Results().Len() == 1 && namedIs(sig.Results().At(0).Type(), modPath, "Option") && len(sf.AnonFuncs) == 1:
-			cl := sf.AnonFuncs[0]
+		case sig.Results().Len() == 1 && namedIs(sig.Results().At(0).Type(), modPath, "Option") && f.Exported():
 			fields := map[string]bool{}
-			for _, path := range optionClosureStores(prog, cl) {
+			for _, path := range optionEffect(prog, sf) {
 				for _, st := range path.stores {
 					if st.field != "" {
 						fields[st.field] = true
@@ -86,50 +87,148 @@ type optStore struct {
 }
 
 type optPath struct {
+	opaque bool // the returned function value could not be applied symbolically
 	stores []optStore
 	reads  []string // option fields read
 	sm     *Summary
 }
 
-func optionClosureStores(prog *Program, cl *ssa.Function) []optPath {
-	if len(cl.Params) != 1 {
-		return nil
-	}
-	po := paramSym(cl.Params[0])
+// optionEffect: what applying the Option returned by constructor ctor does to the options struct, per path, in terms of
+// the constructor's parameters. The constructor is interpreted, then the function value it returns (a closure, or a bound
+// method of a small setting type) is applied to a symbolic *options in the same path state.
+func optionEffect(prog *Program, ctor *ssa.Function) []optPath {
 	ps := NewPathSim(prog)
 	ps.NoTables = true
-	ps.Inline = func(c *ssa.Function) bool { return prog.InModule(c) && c != cl }
-	var cur *optPath
-	reads := map[*pstate][]string{}
-	ps.OnInstr = func(f *ssa.Function, st *pstate, ins ssa.Instruction) {
-		if u, ok := ins.(*ssa.UnOp); ok && u.Op.String() == "*" {
-			if a := ps.sym(st, u.X); a.K == sFieldAddr && a.A.Key() == po.Key() {
-				st.trail = append(st.trail, "read:"+a.Str)
-			}
-		}
-	}
-	_ = cur
-	_ = reads
+	ps.Inline = func(c *ssa.Function) bool { return c != ctor && (prog.InModule(c) || isSynthetic(c)) }
+	ps.MaxDepth = 4
+	po := &Sym{K: sOpaque, Str: "options-argument"}
 	var out []optPath
-	for _, sm := range ps.Run(cl) {
-		op := optPath{sm: sm}
-		for _, t := range sm.St.trail {
-			if len(t) > 5 && t[:5] == "read:" {
-				op.reads = append(op.reads, t[5:])
-			}
+	for _, sm := range ps.Run(ctor) {
+		if sm.Ret == nil || len(sm.Results) != 1 {
+			continue
 		}
-		for _, ev := range sm.Events() {
-			if !ev.Store {
-				continue
-			}
-			addr, val := ev.Args[0], ev.Args[1]
-			if addr.K == sFieldAddr && addr.A.Key() == po.Key() {
-				op.stores = append(op.stores, optStore{field: addr.Str, val: val, addr: addr})
-			} else {
-				op.stores = append(op.stores, optStore{val: val, addr: addr})
-			}
+		clo := sm.Results[0]
+		if clo.K == sConvert || clo.K == sMkIface {
+			clo = clo.A
 		}
-		out = append(out, op)
+		before := len(sm.St.events)
+		applied := ps.ApplyClosure(sm.St, clo, []*Sym{po})
+		if applied == nil {
+			out = append(out, optPath{sm: sm, opaque: true})
+			continue
+		}
+		for _, am := range applied {
+			op := optPath{sm: am}
+			for _, ev := range am.St.events[before:] {
+				if ev.Store {
+					addr, val := ev.Args[0], ev.Args[1]
+					if addr.K == sFieldAddr && addr.A.Key() == po.Key() {
+						op.stores = append(op.stores, optStore{field: addr.Str, val: val, addr: addr})
+					} else {
+						op.stores = append(op.stores, optStore{val: val, addr: addr})
+					}
+				}
+			}
+			for k := range am.St.facts {
+				_ = k
+			}
+			op.reads = readsOf(am.St, po, before)
+			out = append(out, op)
+		}
 	}
 	return out
+}
+
+// readsOf: fields of the options argument that are loaded (recorded by the symbols that mention a load of them).
+func readsOf(st *pstate, po *Sym, from int) []string {
+	seen := map[string]bool{}
+	var out []string
+	var visit func(s *Sym, depth int)
+	visit = func(s *Sym, depth int) {
+		if s == nil || depth > 8 {
+			return
+		}
+		if s.K == sLoad && s.A != nil && s.A.K == sFieldAddr && s.A.A != nil && s.A.A.Key() == po.Key() {
+			if !seen[s.A.Str] {
+				seen[s.A.Str] = true
+				out = append(out, s.A.Str)
+			}
+		}
+		visit(s.A, depth+1)
+		visit(s.B, depth+1)
+		for _, k := range s.Kids {
+			visit(k, depth+1)
+		}
+		for _, k := range s.F {
+			visit(k, depth+1)
+		}
+	}
+	for _, ev := range st.events[from:] {
+		for _, a := range ev.Args {
+			visit(a, 0)
+		}
+		for _, d := range ev.Deref {
+			visit(d, 0)
+		}
+	}
+	for k := range st.facts {
+		if strings.Contains(k, "*(&"+po.Key()+".") {
+			i := strings.Index(k, "*(&"+po.Key()+".") + len("*(&"+po.Key()+".")
+			j := i
+			for j < len(k) && (k[j] == '_' || k[j] >= 'a' && k[j] <= 'z' || k[j] >= 'A' && k[j] <= 'Z' || k[j] >= '0' && k[j] <= '9') {
+				j++
+			}
+			if f := k[i:j]; f != "" && !seen[f] {
+				seen[f] = true
+				out = append(out, f)
+			}
+		}
+	}
+	sort.Strings(out)
+	return out
+}
+
+// ownParameter: the value is a parameter of the constructor, unmodified: the parameter itself, through conversions between
+// types with the same underlying type, a field of a setting struct that holds it, or the address of a copy of it.
+func ownParameter(st *pstate, v *Sym, depth int) bool {
+	if v == nil || depth > 6 {
+		return false
+	}
+	switch v.K {
+	case sParam:
+		return true
+	case sFree:
+		return true
+	case sConvert:
+		return ownParameter(st, v.A, depth+1)
+	case sLoad:
+		// a load of a captured variable cell / of a field of a setting
+		if v.A.K == sFree {
+			return true
+		}
+		if al, path, ok := localPath(v.A); ok {
+			if x, ok := loadLocal(st, al, path, nil); ok {
+				return ownParameter(st, x, depth+1)
+			}
+		}
+	case sFieldAddr, sFresh:
+		// the address of a copy of the parameter
+		if al, path, ok := localPath(v); ok {
+			if x, ok := loadLocal(st, al, path, nil); ok {
+				return ownParameter(st, x, depth+1)
+			}
+		}
+	case sStruct:
+		// a struct value all of whose set fields are parameters (a binding built from the arguments)
+		if len(v.F) == 0 {
+			return false
+		}
+		for _, f := range v.F {
+			if !ownParameter(st, f, depth+1) {
+				return false
+			}
+		}
+		return true
+	}
+	return false
 }
